@@ -30,7 +30,7 @@ func RunCheck(t *testing.T, p Params) {
 
 	run := vkit.New("C11", p.Part, "fault_enumeration")
 	n := run.N(p.Quick, p.Thorough)
-	run.SetRule("each evaluation is one seeded history (append of 0 B..300 KiB entries with non-monotonic epochs, explicit Rotate, Close+reuse, Close+reopen, abandon+reopen, Purge at 0/max/max+1/existing/existing+1 epochs, reopen of a copy) executed on the real internal/writeaheadlog in a real directory, followed by the torn-tail enumeration of its final append: for every byte offset between the file size before and after that append (all offsets if the record is <= 4 KiB, else first/last 64 + 512 sampled) the directory is rebuilt with the file cut there, the log is restarted, read, appended to, restarted, appended to (sometimes purged), restarted and read again; every read is compared with the harness's own log of acknowledged appends grouped by the log file that took them (learned from directory listings). distinct_nontrivial = distinct (history hash, cut offset) pairs where the cut fell strictly inside the final record")
+	run.SetRule("each evaluation is one seeded history or one crash world (cut offset) of its final append; a history = (append of 0 B..300 KiB entries with non-monotonic epochs, explicit Rotate, Close+reuse, Close+reopen, abandon+reopen, Purge at 0/max/max+1/existing/existing+1 epochs, reopen of a copy) executed on the real internal/writeaheadlog in a real directory, followed by the torn-tail enumeration of its final append: for every byte offset between the file size before and after that append (all offsets if the record is <= 4 KiB, else first/last 64 + 512 sampled) the directory is rebuilt with the file cut there, the log is restarted, read, appended to, restarted, appended to (sometimes purged), restarted and read again; every read is compared with the harness's own log of acknowledged appends grouped by the log file that took them (learned from directory listings). distinct_nontrivial = distinct (history hash, cut offset) pairs where the cut fell strictly inside the final record")
 	run.Assume(
 		"the page cache is not modelled: a crash is simulated as the file ending at byte k, i.e. writes reach the file in order and fsync-before-ack is only checked as write-before-ack (the record is visible through a second descriptor / second log instance when Append returns)",
 		"only the final write of a history is torn (the property speaks of the last write); closed files are never cut",
@@ -51,7 +51,7 @@ func RunCheck(t *testing.T, p Params) {
 			Distinct:  run.Distinct,
 		}
 		st, desc := RunHistory(p.Driver, i, seed, root, p.BulkEvery, sink)
-		run.Eval(1)
+		run.Eval(1 + st["truncation_points"]) // the history itself + one crash world per cut offset
 		if i < 4 {
 			run.Sample(desc)
 		}
